@@ -236,12 +236,36 @@ func c09Fetch(c *mc.Ctx) {
 		advertised = append(advertised, w.sums[t])
 	}
 	// commits the client held shallowly before this fetch are not promised to be completed by it
-	var exempt uint64
+	// (... unless the new history reaches them without passing through a commit the client already
+	// held in full: the walk of the wanted history only stops at such commits)
+	var exempt, fullBefore uint64
 	for _, i := range model.Bits(C) {
 		if absent&(1<<uint(tblOf[i])) != 0 {
 			exempt |= 1 << uint(i)
+		} else {
+			fullBefore |= 1 << uint(i)
 		}
 	}
+	var visited uint64
+	var frontier []int
+	for _, t := range stips {
+		if C&(1<<uint(t)) == 0 { // only commits the client lacks are asked for
+			frontier = append(frontier, t)
+		}
+	}
+	for len(frontier) > 0 {
+		x := frontier[0]
+		frontier = frontier[1:]
+		if visited&(1<<uint(x)) != 0 {
+			continue
+		}
+		visited |= 1 << uint(x)
+		if fullBefore&(1<<uint(x)) != 0 {
+			continue
+		}
+		frontier = append(frontier, g.Parents[x]...)
+	}
+	exempt &^= visited
 	run := func() (transferred int, nothingWanted bool, err error) {
 		srv.ResetLog()
 		ses, err := apiclient.NewUploadPackSession(cdb, crs, client, advertised,
@@ -373,6 +397,24 @@ func c09Push(c *mc.Ctx) {
 		return
 	}
 	if perr != nil {
+		shallowRemote := false
+		for _, i := range model.Bits(S) {
+			if srvTablesAbsent&(1<<uint(tblOf[i])) != 0 {
+				shallowRemote = true
+			}
+		}
+		if shallowRemote {
+			// the property speaks of SUCCESSFUL pushes: a push that a shallow remote refuses with an error
+			// (the same sender assumption as the push-incomplete:shallow-remote finding, seen by the
+			// receiver as a missing block) is reported to the user and leaves the ref alone
+			if got, _ := srs.Get("heads/p"); got != nil {
+				c.Fail("push-ref", "the push failed (%v) but the remote ref heads/p was set; %s", perr, desc)
+				return
+			}
+			c.Outcome("refused-by-shallow-remote")
+			c.Nontrivial(desc)
+			return
+		}
 		c.Fail("push-error", "push failed: %v; %s", perr, desc)
 		return
 	}
@@ -432,7 +474,7 @@ func init() {
 		Rule: "fetch: every commit DAG of 1..3 (thorough 4) nodes x every ancestor-closed set held by the server x every ancestor-closed set held by the client (ahead, behind, diverged, unrelated, equal all arise) x depth 0..2, completely; crossed with up to d deviations over: table assignment from a pool that shares blocks, server refs on all tips / newest tip / additionally on any non-tip commit, the order in which the finder walks the wanted commits, tables absent at the client (earlier shallow fetch), haves per round trip {256,1,2}, server-side table negotiation, max packfile size {default,1,4096}. " +
 			"The real UploadPackSession talks HTTP (in-process round tripper, no sockets) to a reference server assembled from the repository's own finder/sender/receiver. Oracle: fetch succeeds; every ancestor of every advertised tip exists locally, tables within the depth are present and pass the structural oracle; objects present on both sides are byte-identical; an immediately repeated fetch transfers 0 objects and changes nothing. " +
 			"push: same universe, the real ReceivePackSession pushes a local tip to a new remote ref (remote possibly holding commits without tables): the remote must end with the full history incl. tables, identical objects, and a repeated push transfers nothing. non-trivial = at least one object transferred; distinct by case description",
-		Assumptions: []string{"the server half is /verif's reference assembly of the repository's own components (refsrv); auth, proxies and HTTP/2 stream errors are not modelled", "commits that the receiving side already held without their table before the operation are not promised to be completed by it"},
+		Assumptions: []string{"the server half is /verif's reference assembly of the repository's own components (refsrv); auth, proxies and HTTP/2 stream errors are not modelled", "commits that the receiving side already held without their table before the operation are not promised to be completed by it, except (fetch) those the new history reaches without passing through a commit the receiver already held in full"},
 		Harnesses: []*mc.Harness{
 			{Name: "fetch-sessions", Body: c09Fetch, DevBound: map[string]int{"quick": 2, "thorough": 3}, Budget: map[string]time.Duration{"quick": 75 * time.Second, "thorough": 14 * time.Minute}},
 			{Name: "push-sessions", Body: c09Push, DevBound: map[string]int{"quick": 1, "thorough": 2}, Budget: map[string]time.Duration{"quick": 60 * time.Second, "thorough": 10 * time.Minute}},
